@@ -25,7 +25,7 @@ func init() {
 			dir := dir
 			ev.RegisterProbe(name+"."+dir, func() string {
 				for _, v := range [][3]float32{{0.25, 0.5, 0.75}, {1, 1, 1}, {0, 1, 0}} {
-					if k, w := check(Case{name, dir, v}); k != "" {
+					if k, w := check(Case{Space: name, Dir: dir, V: v}); k != "" {
 						return w
 					}
 				}
@@ -39,6 +39,21 @@ type Case struct {
 	Space string     `json:"space"`
 	Dir   string     `json:"dir"` // "toXYZ", "fromXYZ", "rt-rgb", "rt-xyz"
 	V     [3]float32 `json:"v"`
+	// After > 0: the case directly follows conversions of colours with non-finite components (number After-1 of
+	// outside()), whose results are ignored
+	After int `json:"after,omitempty"`
+}
+
+func outside(i int) {
+	nan, inf := float32(math.NaN()), float32(math.Inf(1))
+	vs := [][3]float32{{nan, 0.5, 0.5}, {0.5, inf, 0.2}, {0.1, 0.2, -inf}, {nan, nan, nan}, {3.4e38, 3.4e38, 3.4e38}, {-3.4e38, 3.4e38, 1}}
+	v := vs[i%len(vs)]
+	a := &sp.Spaces[(i/len(vs))%len(sp.Spaces)]
+	ev.Guard(func() {
+		a.ToXYZ(a.FromLinear(v[0], v[1], v[2]))
+		a.FromXYZ(ciexyz.Color{X: v[0], Y: v[1], Z: v[2]})
+		a.ToXYZ(a.FromXYZ(ciexyz.Color{X: v[2], Y: v[0], Z: v[1]}))
+	})
 }
 
 func space(name string) *sp.API {
@@ -82,6 +97,9 @@ func l1(v [3]float32) float64 {
 
 // check one triple.
 func check(c Case) (kind, what string) {
+	if c.After > 0 {
+		outside(c.After - 1)
+	}
 	a := space(c.Space)
 	m := refMats(a)
 	in := ref.V3{float64(c.V[0]), float64(c.V[1]), float64(c.V[2])}
@@ -167,7 +185,7 @@ func TestC03(t *testing.T) {
 		}
 		return
 	}
-	ev.Rule("per space: declared chromaticities vs published values; 9+9 coefficients recovered by probing basis vectors; then the 8-bit-spaced lattice (64^3 quick / 256^3 thorough) of RGB triples and of XYZ triples, plus rapid float32 triples in [-1,2]^3 (a quarter within 1e-7..3e-2 of a landmark of the RGB cube - 0, 1, 1/2, a common grey - by a different amount per component; a quarter with components of independent magnitude 1e-44..1e30 and sign), through ToXYZ, ColorFromXYZ and both round trips. non-trivial = distinct triple with a component outside [0,1] or all three components different")
+	ev.Rule("per space: declared chromaticities vs published values; 9+9 coefficients recovered by probing basis vectors; then the 8-bit-spaced lattice (64^3 quick / 256^3 thorough) of RGB triples and of XYZ triples, plus rapid float32 triples in [-1,2]^3 (a quarter within 1e-7..3e-2 of a landmark of the RGB cube - 0, 1, 1/2, a common grey - by a different amount per component; a quarter with components of independent magnitude 1e-44..1e30 and sign), through ToXYZ, ColorFromXYZ and both round trips. an eighth of the rapid cases directly follow a request outside the domain (non-finite or degenerate arguments) whose answer is ignored. non-trivial = distinct triple with a component outside [0,1] or all three components different")
 	ev.Assume("published chromaticities transcribed in internal/ref; equality with published values at the precision of publication (5e-5)")
 	ev.Set("tolerances", map[string]float64{"coefficient": 1e-6, "transform": 1.5e-6, "roundtrip": 2e-6, "published": 5e-5})
 
@@ -192,7 +210,7 @@ func TestC03(t *testing.T) {
 						if bad[dir] {
 							continue
 						}
-						c := Case{a.Name, dir, v}
+						c := Case{Space: a.Name, Dir: dir, V: v}
 						if k, w := check(c); k != "" {
 							bad[dir] = true
 							ev.Violation("xyz", a.Name+"/"+k, w, c)
@@ -213,7 +231,7 @@ func TestC03(t *testing.T) {
 			for _, y := range sv {
 				for _, z := range sv {
 					for _, dir := range []string{"toXYZ", "fromXYZ", "rt-rgb", "rt-xyz", "mutated"} {
-						c := Case{a.Name, dir, [3]float32{x, y, z}}
+						c := Case{Space: a.Name, Dir: dir, V: [3]float32{x, y, z}}
 						ev.Eval(1)
 						ev.NT(ev.Hash("special", a.Name, dir, c.V))
 						if bad[dir] {
@@ -259,7 +277,7 @@ func TestC03(t *testing.T) {
 			bad := map[string]bool{}
 			for _, v := range named {
 				for _, d := range []int{0, 1, -1} {
-					c := Case{a.Name, "", [3]float32{ulp(v[0], d), v[1], ulp(v[2], -d)}}
+					c := Case{Space: a.Name, Dir: "", V: [3]float32{ulp(v[0], d), v[1], ulp(v[2], -d)}}
 					for _, dir := range []string{"toXYZ", "fromXYZ", "rt-rgb", "rt-xyz", "mutated"} {
 						c.Dir = dir
 						ev.Eval(1)
@@ -332,7 +350,10 @@ func TestC03(t *testing.T) {
 				v = [3]float32{float32(x[0]), float32(x[1]), float32(x[2])}
 			}
 		}
-		c := Case{a.Name, dir, v}
+		c := Case{Space: a.Name, Dir: dir, V: v}
+		if rapid.IntRange(0, 7).Draw(rt, "afteroutside") == 0 {
+			c.After = rapid.IntRange(1, 24).Draw(rt, "outside")
+		}
 		ev.Eval(1)
 		if nontrivial(v) {
 			ev.NT(ev.Hash(a.Name, dir, v))
